@@ -397,6 +397,22 @@ def carrier(kind, cfg, seqn, mode, sib):
                        plan={'start': 'N0', 'want_iter': 1})
         nodes['OUT'] = N('OUT', mode='inline', params=[['a', ['rec', 'N0', 'D', 2]], ['s', ['in', 'X']]])
         order = ['N0', 'MID', 'X', 'D', 'OUT']
+    elif kind == 'recstart':
+        # X is the START node of a recurrent subgraph: in a re-iteration its arguments (and those of get_default)
+        # include additional_data
+        x['start_of'] = True
+        nodes['D'] = N('D', mode='async', params=[['a', ['in', 'X']]], kind='dest', recurrent=True,
+                       plan={'start': 'X', 'want_iter': 1})
+        nodes['OUT'] = N('OUT', mode='inline', params=[['a', ['rec', 'X', 'D', 2]]])
+        order = ['N0', 'X', 'D', 'OUT']
+    elif kind == 'oneof_shared':
+        # X is shared by two candidates; the first one is lost (F fails) while X may still be retrying
+        splan = {'fail': ['ALWAYS', 'E2']}
+        nodes['F'] = N('F', mode='async', params=[['a', ['in', 'N0']]], plan=splan)
+        nodes['C1'] = N('C1', mode='async', params=[['a', ['in', 'X']], ['b', ['in', 'F']]])
+        nodes['C2'] = N('C2', mode='inline', params=[['a', ['in', 'X']]])
+        nodes['OUT'] = N('OUT', mode='thread', params=[['a', ['oneof', ['C1', 'C2']]]])
+        order = ['N0', 'X', 'F', 'C1', 'C2', 'OUT']
     else:   # X is the first one-of candidate
         nodes['ALT'] = N('ALT', mode='async', params=[['a', ['in', 'N0']]])
         nodes['OUT'] = N('OUT', mode='thread', params=[['a', ['oneof', ['X', 'ALT']]]])
@@ -432,10 +448,10 @@ def work_c12(prop, tier, seed, widx, nworkers):
         nsched = 3
     acc.counters['configurations_total'] = len(allcfg) if widx == 0 else 0
     for cfg, seqn in mine:
-        kind = rng.choice(['chain', 'sibling', 'sibling', 'oneof', 'rec', 'recout'])
+        kind = rng.choice(['chain', 'sibling', 'sibling', 'oneof', 'rec', 'recout', 'recstart', 'oneof_shared'])
         mode = rng.choice(['async', 'thread', 'inline', 'process'])
         sib = rng.choice(['slow', 'fail'])
-        if 'Fatal' in seqn and kind in ('oneof', 'rec', 'recout'):
+        if 'Fatal' in seqn and kind in ('oneof', 'rec', 'recout', 'recstart', 'oneof_shared'):
             kind = 'chain'
         prog = carrier(kind, cfg, seqn, mode, sib)
         acc.programs += 1
@@ -466,7 +482,7 @@ def work_c12(prop, tier, seed, widx, nworkers):
 RULES['C12'] = ('enumerated retry configurations: attempts {None,1,2,3,4} x delay {None,0,0.3} x exceptions '
                 '{None,(E1,),(E1,E2)} x use_default x every per-attempt outcome sequence of length <= attempts over '
                 '{E1,E2,E1Sub,EOther,Fatal(BaseException)} followed by success, on a node placed in three carrier DAGs '
-                '(chain, with a slow / failing sibling, first one-of candidate) in every execution mode (thorough: all '
+                '(chain, with a slow / failing sibling, first one-of candidate, inside / start of / read from a recurrent subgraph, shared by two one-of candidates) in every execution mode (thorough: all '
                 'configurations; quick: a seeded stratified sample), plus grammar programs with heavy retry use. Oracle: '
                 'attempt count, kwargs of every attempt and of get_default, exact virtual-time gap before each re-attempt, '
                 'node outcome, lifecycle events per attempt. Non-trivial: >= 2 choice points.')
